@@ -34,6 +34,7 @@ type c07Coding struct {
 	stateful bool
 	pools    map[int][]rune // by octets of the one-character encoding (GSM: by septets)
 	specials []rune         // accepted characters by UTF-8 form: U+FFFD (= utf8.RuneError) first, then a 4-, 3-, 2-octet sequence
+	deep     bool                // the model looks characters up in tables of thousands of rows: long random texts are slow in coqc
 	aliases  []coding.DataCoding // message-waiting / message-class values whose encoder behaves like this coding's
 }
 
@@ -44,11 +45,11 @@ func c07Codings() []*c07Coding {
 		{name: "latin1", cs: "CLatin1", c: coding.Latin1Coding, wmodel: "w_1byte", emodel: "(enc_len_stateless wd_latin1)"},
 		{name: "cyrillic", cs: "CCyrillic", c: coding.CyrillicCoding, wmodel: "w_1byte", emodel: "(enc_len_stateless wd_cyrillic)"},
 		{name: "hebrew", cs: "CHebrew", c: coding.HebrewCoding, wmodel: "w_1byte", emodel: "(enc_len_stateless wd_hebrew)"},
-		{name: "shiftjis", cs: "CSjis", c: coding.ShiftJISCoding, wmodel: "w_multibyte", emodel: "(enc_len_stateless wd_shiftjis)"},
-		{name: "eucjp", cs: "CEucjp", c: coding.EUCJPCoding, wmodel: "(w_measured wd_eucjp)", emodel: "(enc_len_stateless wd_eucjp)"},
-		{name: "euckr", cs: "CEuckr", c: coding.EUCKRCoding, wmodel: "w_multibyte", emodel: "(enc_len_stateless wd_euckr)"},
+		{name: "shiftjis", deep: true, cs: "CSjis", c: coding.ShiftJISCoding, wmodel: "w_multibyte", emodel: "(enc_len_stateless wd_shiftjis)"},
+		{name: "eucjp", deep: true, cs: "CEucjp", c: coding.EUCJPCoding, wmodel: "(w_measured wd_eucjp)", emodel: "(enc_len_stateless wd_eucjp)"},
+		{name: "euckr", deep: true, cs: "CEuckr", c: coding.EUCKRCoding, wmodel: "w_multibyte", emodel: "(enc_len_stateless wd_euckr)"},
 		{name: "ucs2", cs: "CUcs2", c: coding.UCS2Coding, wmodel: "w_utf16", emodel: "(enc_len_stateless wd_ucs2)"},
-		{name: "iso2022jp", cs: "CIso2022jp", c: coding.ISO2022JPCoding, wmodel: "w_multibyte", emodel: "(enc_len_2022 wd_iso2022jp JAscii)", stateful: true},
+		{name: "iso2022jp", deep: true, cs: "CIso2022jp", c: coding.ISO2022JPCoding, wmodel: "w_multibyte", emodel: "(enc_len_2022 wd_iso2022jp JAscii)", stateful: true},
 	}
 	cands := [][2]rune{{0x20, 0x7E}, {0xA0, 0xFF}, {0x391, 0x3A9}, {0x410, 0x44F}, {0x5D0, 0x5EA}, {0x2010, 0x2030}, {0x3041, 0x3093},
 		{0x30A1, 0x30F6}, {0x4E00, 0x4FFF}, {0x5000, 0x5200}, {0x9000, 0x9100}, {0xAC00, 0xAD00}, {0xFF61, 0xFF9F}, {0x1F300, 0x1F340}, {0x20000, 0x20010}}
@@ -386,10 +387,13 @@ func (c *c07) composeDC(cd *c07Coding, dc coding.DataCoding, rs []rune, ref uint
 	case dc != cd.c:
 		// a message-waiting / message-class value: the model resolves it through the regenerated dc_table
 		r.Case(in, fmt.Sprintf("parts_obs_ok beq_bytes (compose_dc %d %d %s) %d %s", byte(dc), ref, coqText(rs), cls, coqList(obs)))
+	case len(rs) > 5000:
+		// hundreds of parts of one repeated character: the lengths say it all (and keep the quick tier quick)
+		r.Case(in+" (lengths)", fmt.Sprintf("parts_obs_ok Nat.eqb (compose_len %s %s %d %s) %d %s", cd.wmodel, cd.emodel, ref, coqText(rs), cls, coqList(obsLen)))
 	default:
 		// payload level: header entries and the payload OCTETS of every part
 		r.Case(in, fmt.Sprintf("parts_obs_ok beq_bytes (compose_cs %s %d %s) %d %s", cd.cs, ref, coqText(rs), cls, coqList(obs)))
-		if c.ncase++; c.ncase%4 == 0 || cd.stateful {
+		if c.ncase++; (c.ncase%4 == 0 && !(cd.deep && len(rs) > 150 && r.Quick)) || cd.stateful {
 			// the length-only instance the size theorems (C07_no_size_refusal) speak about
 			r.Case(in+" (lengths)", fmt.Sprintf("parts_obs_ok Nat.eqb (compose_len %s %s %d %s) %d %s", cd.wmodel, cd.emodel, ref, coqText(rs), cls, coqList(obsLen)))
 		}
@@ -520,7 +524,7 @@ func corrC07(r *Run) {
 	r.Import("Model.IntervalMap")
 	r.Import("Model.Charset")
 	r.Import("Model.ComposeText")
-	r.PerShard(40)
+	r.PerShard(120)
 	r.Rule = "ComposeMultipartShortMessage on generated texts per repertoire (GSM 7-bit with extension characters, four single-octet charsets, " +
 		"Shift-JIS, EUC-JP incl. 3-octet characters, ISO-2022-JP, EUC-KR, UCS-2 incl. supplementary planes): wide characters at every offset -3..+3 " +
 		"around the part boundary, U+FFFD and other characters with 2/3/4-octet UTF-8 forms at every offset -3..+3 around every part boundary, lengths 0 .. beyond 254 parts, references {0,1,254,255,256,65535}+random; Splitter.Split with small limits. " +
@@ -653,6 +657,9 @@ func corrC07(r *Run) {
 				}
 				for k := 1; k <= nbound; k++ {
 					for off := -3; off <= 3; off++ {
+						if r.Quick && x != 0xFFFD && (off < -1 || off > 1 || k > 2) {
+							continue // quick tier: every offset and boundary for U+FFFD, the cut itself for the others
+						}
 						t := append(rept(a, k*per+off), x)
 						t = append(t, rept(a, per/2+3)...)
 						c.compose(cd, t, ref, "UTF-8 multi-octet character at offset -3..+3 of every part boundary")
@@ -677,6 +684,9 @@ func corrC07(r *Run) {
 		nm := r.N(8, 60)
 		for i := 0; i < nm; i++ {
 			ln := 100 + r.Rng.Intn(500)
+			if cd.deep && r.Quick {
+				ln = 100 + r.Rng.Intn(200)
+			}
 			t := make([]rune, ln)
 			mode := r.Rng.Intn(4)
 			for j := range t {
